@@ -254,6 +254,28 @@ def c11(run):
                         "every configuration of a history uses the same data directory (the statement: same data directory)"]
 
 
+def apalache_store(run):
+    """Optional: unbounded safety of the abstract store model by an inductive invariant (Apalache).  Not relied upon: a tool problem or a
+    timeout is recorded and skipped; only a reported counterexample counts (as a model-level violation)."""
+    out_dir = os.path.join(run.dir, "apalache")
+    res = []
+    for args in (["--init=Init", "--inv=IndInv", "--length=0"], ["--init=IndInit", "--inv=IndInv", "--length=1"], ["--init=IndInit", "--inv=Remembered", "--length=0"]):
+        try:
+            r = subprocess.run(["timeout", "300", "apalache-mc", "check", "--out-dir=" + out_dir] + args + ["StoreInd.tla"], cwd=stages.SPEC,
+                               capture_output=True, text=True, timeout=400)
+            ok = "EXITCODE: OK" in r.stdout
+            bad = "EXITCODE: ERROR (12)" in r.stdout or "violation" in r.stdout.lower() and not ok
+            res.append({"args": " ".join(args), "ok": ok})
+            if bad:
+                run.model_violations.append(("StoreInd(apalache)", " ".join(args), out_dir))
+        except Exception as e:  # noqa: BLE001
+            res.append({"args": " ".join(args), "ok": False, "skipped": str(e)[:100]})
+    run.extra["apalache_inductive"] = res
+    shutil.rmtree(out_dir, ignore_errors=True)
+    # apalache leaves _apalache-out next to the spec when --out-dir is ignored
+    shutil.rmtree(os.path.join(stages.SPEC, "_apalache-out"), ignore_errors=True)
+
+
 def c09(run):
     run.sites = {"store", "panic"}
     tlc, s0 = run_tlc_replay(run, "MC_Split_store", "MC_Split.tla",
@@ -264,6 +286,7 @@ def c09(run):
                              dict(spec="Spec", constants={"StoreDerived": "FALSE", "MaxSteps": 8 if run.quick() else 10},
                                   invariants=["Remembered", "SurvivesRestart"]), "C09", workers=4, threads=1)
     run.add(tlc, None)
+    apalache_store(run)
     rounds = 60 if run.quick() else 400
     tlc, s = run_record_validate(run, "store", "store", "Trace_Store.tla", "C09", "store", rounds, shards=8, focus="C09")
     run.add(tlc, s)
